@@ -55,7 +55,12 @@ CLAIM = dict(
     "signed: max(v/max, -1); bool / float: unchanged); baseline_zero_every_dtype, diff_parts_every_dtype, promoted_range are "
     "stated on that rule (near-definitional given the rule); diff_no_wrap remains the exact statement for unsigned types. Tied "
     "by dtype_tie: all 144 (baseline dtype, probe dtype) pairs, values over the whole integer range, against the model's "
-    "exact rational difference (1e-12). Baseline LISTS of mixed dtype are not covered. OBSERVED ONLY (oracle): TVD / compare_images / cv2 internals, 0-preservation of TVD, update(mask=...) (unused by this class).",
+    "exact rational difference (1e-12). Baseline LISTS of mixed dtype are not covered. OBSERVED ONLY (oracle): TVD / compare_images / cv2 internals, 0-preservation of TVD, update(mask=...) (unused by this class). "
+    "FAILING INPUTS come only from clauses of the statement (route()): baseline -> 0, order, chaining, result = last stage output, "
+    "probe unmodified, reduced result scalar, physical metadata, option relations and the promoted difference for uint8 / uint16 / "
+    "float32 / float64 / bool at 1e-6; conventions of the model (exact-rational agreement below 1e-6, promotion rule of other "
+    "dtypes, reduction formulas, cleaning-filter formula, scribbling stages, argument immutability of constructor / update, result "
+    "class name) give TIE-BROKEN marks; raises on other dtypes / two-channel images and the result name are observations.",
     note="stage objects are parameters of the model; library numerics are observed only",
     technique="Lean 4 proof (list induction, state-machine and buffer invariants, case analysis over configurations, ordered-field "
     "arithmetic) + differential correspondence with instrumented stages + exact-rational numeric ties + property oracle",
@@ -506,7 +511,9 @@ def oracle(ctx, d):
                         ctx.fail("C13:probe-modified(baseline)", "the image passed to the analysis was modified", case)
                     reduced = res.img.ndim == base.img.ndim - 1
                     want = "ScalarImage" if reduced else type(base).__name__
-                    if type(res).__name__ != want:
+                    if reduced and not getattr(res, "scalar", False):
+                        ctx.fail(f"C13:result-not-scalar({type(base).__name__},reduced=True)", f"reduced result ({type(res).__name__}) is not a scalar image", case)
+                    elif type(res).__name__ != want:
                         ctx.fail(f"C13:result-kind({type(base).__name__},reduced={reduced})", f"result is {type(res).__name__}, expected {want}", case)
                     k = meta_equal(meta_snapshot(base), meta_snapshot(res))
                     if k:
@@ -603,7 +610,9 @@ def oracle(ctx, d):
             ctx.fail(f"C13:result-metadata({k})", f"result metadata '{k}' differs from the probe's", dict(case, key=k))
         reduced = res.img.ndim == probe.img.ndim - 1
         wantk = "ScalarImage" if reduced else type(probe).__name__
-        if type(res).__name__ != wantk:
+        if reduced and not getattr(res, "scalar", False):
+            ctx.fail(f"C13:result-not-scalar({type(probe).__name__},reduced=True)", f"reduced result ({type(res).__name__}) is not a scalar image", case)
+        elif type(res).__name__ != wantk:
             ctx.fail(f"C13:result-kind({type(probe).__name__},reduced={reduced})", f"result is {type(res).__name__}, expected {wantk}", case)
 
     # --- O6 channels collapsed by a LATER stage (reduction absent): kind rule + metadata, exhaustive over
@@ -630,7 +639,9 @@ def oracle(ctx, d):
                                          f"channels collapsed by the {late} stage (no signal reduction): the analysis raises {res.exc!r} instead of "
                                          "returning a ScalarImage", case)
                                 continue
-                            if type(res).__name__ != "ScalarImage" or res.img.ndim != 2:
+                            if not getattr(res, "scalar", False) or res.img.ndim != 2:
+                                ctx.fail(f"C13:late-collapse({late}):result-not-scalar", f"one-channel result is not a scalar image: {type(res).__name__} of shape {res.img.shape}", case)
+                            elif type(res).__name__ != "ScalarImage":
                                 ctx.fail(f"C13:late-collapse({late}):result-kind", f"one-channel result returned as {type(res).__name__} of shape {res.img.shape}", case)
                             k = meta_equal(meta_snapshot(probe), meta_snapshot(res))
                             if k:
@@ -702,7 +713,7 @@ def oracle(ctx, d):
             an1 = call(lambda: d.ConcentrationAnalysis(b0, **{"diff option": opt}))
             r1 = an1 if isinstance(an1, Raised) else call(lambda: (an1.update(base=cur), an1(probe))[1])
             r2 = an2 if isinstance(an2, Raised) else call(lambda: an2(probe))
-            if isinstance(r1, Raised) or isinstance(r2, Raised) or r1.img.shape != r2.img.shape or not np.allclose(r1.img, r2.img, rtol=0, atol=1e-12):
+            if isinstance(r1, Raised) or isinstance(r2, Raised) or r1.img.shape != r2.img.shape or not np.allclose(r1.img, r2.img, rtol=0, atol=1e-6):
                 ctx.fail(f"C13:update(base):differs-from-fresh-analysis(dtype={case['dtype_of_update']})",
                          "an analysis updated to baseline b differs from a fresh analysis constructed with b", case)
 
@@ -872,7 +883,11 @@ def dtype_tie(ctx, d):
                 ctx.fail(f"C13:dtype(base={db},probe={dp},opt={opt}):shape", "result has another shape than the images", dict(case, opt=opt))
                 break
             dev = max(abs(Fraction(float(v)) - e) for v, e in zip(vals.ravel().tolist(), exact))
-            if dev > Fraction(1, 10 ** 12):
+            if Fraction(1, 10 ** 12) < dev <= Fraction(1, 10 ** 6):
+                # the statement asks for promotion, not for float64 promotion: a working precision of float32 is a break of the
+                # tie with the exact model only
+                ctx.mark("TIE-BROKEN", {"correspondence": "diffD (exact promoted difference)", "dtype": f"{db}/{dp}", "opt": opt, "max_dev": float(dev)})
+            if dev > Fraction(1, 10 ** 6):
                 ctx.fail(f"C13:dtype(base={db},probe={dp},opt={opt}):differs-from-promoted-difference",
                          f"the {opt} difference of a {dp} probe and a {db} baseline deviates by {float(dev):.3g} from the difference of the "
                          "promoted values (img_as(float) of each image)",
@@ -880,9 +895,9 @@ def dtype_tie(ctx, d):
             else:
                 worst = max(worst, float(dev))
         if len(out) == 4:
-            if not np.allclose(out["positive"] + out["negative"], out["absolute"], rtol=0, atol=1e-12):
+            if not np.allclose(out["positive"] + out["negative"], out["absolute"], rtol=0, atol=1e-6):
                 ctx.fail(f"C13:pos+neg!=abs(dtype={db}/{dp})", "positive part + negative part differs from the absolute difference", case)
-            if not np.allclose(out["positive"] - out["negative"], out["plain"], rtol=0, atol=1e-12):
+            if not np.allclose(out["positive"] - out["negative"], out["plain"], rtol=0, atol=1e-6):
                 ctx.fail(f"C13:pos-neg!=plain(dtype={db}/{dp})", "positive part - negative part differs from the plain difference", case)
     ctx.cov["dtype_tie_max_float_error"] = worst
 
@@ -929,11 +944,47 @@ def promotion_tie(ctx, d):
             continue
         dev = max(abs(Fraction(float(v)) - e) for v, e in zip(vals, exact))
         worst = max(worst, float(dev))
-        if dev > Fraction(1, 10 ** 12):
+        if Fraction(1, 10 ** 12) < dev <= Fraction(1, 10 ** 6):
+            ctx.mark("TIE-BROKEN", {"correspondence": "diffPromoted (exact promoted difference)", "dtype": f"uint{bits}", "opt": opt, "max_dev": float(dev)})
+        if dev > Fraction(1, 10 ** 6):
             ctx.fail(f"C13:promotion(uint{bits},{opt}):differs-from-promoted-integer-difference",
                      f"difference of integer images deviates by {float(dev):.3g} from (option of) (probe - baseline) / {2 ** bits - 1} "
                      "(wrap-around or missing promotion)", dict(case, max_dev=float(dev), observed=vals.tolist()))
     ctx.cov["promotion_max_float_error"] = worst
+
+
+STATED_DTYPES = {"uint8", "uint16", "float32", "float64", "bool"}  # "supported dtype (incl. integer types that must be promoted)"
+
+
+def route(sig, rep):
+    """'fail' (a clause of the statement), 'obs' (outside statement and model) or the name of the correspondence (mark)"""
+    dts = set()
+    for k in ("dtype", "dtype_at_construction", "dtype_of_update", "baseline_dtype", "probe_dtype"):
+        if rep.get(k):
+            dts |= set(str(rep[k]).split("/"))
+    stated = dts <= STATED_DTYPES
+    raises = "raises" in sig
+    if raises and (not stated or rep.get("kind") == "Image"):
+        return "obs"  # acceptance of further dtypes / of two-channel images is not claimed
+    if sig.startswith("C13:update(base):raises") or sig == "C13:update(base):modifies-argument":
+        return "update(base=...) of the state machine (AState.update)"
+    if "differs-from-promoted-difference" in sig and not stated:
+        return "promotion rule of the dtype kind (DKind.rule: signed / wide / half types)"
+    if sig.startswith("C13:reduction("):
+        return "stock reductions (StageFn gray / negKey / hsv formulas)"
+    if (sig.startswith("C13:stage-input(") or sig == "C13:result-is-not-last-stage-output") and rep.get("extras", 0):
+        return "cleaning filter formula (clip(x - running max, 0))"
+    if "(scribbling=True)" in sig:
+        return "probe_unchanged under stages that overwrite their input"
+    if sig.startswith("C13:baseline-modified("):
+        return "constructor keeps its arguments (callOp frame)"
+    if sig.startswith("C13:baseline-not-zero") and (rep.get("caller_modified_baseline_after_construction") or rep.get("caller_modified_image_after_update")):
+        return "the analysis holds its own copy of the baseline (AState.init / update)"
+    if sig.startswith("C13:result-kind(") or sig.endswith(":result-kind"):
+        return "result class rule (resultKind)"
+    if sig == "C13:result-metadata(name)":
+        return "obs"
+    return "fail"
 
 
 def replay(data):
@@ -989,7 +1040,27 @@ def run(ctx):
     import darsia as d
 
     _fail = ctx.fail
-    ctx.fail = lambda sig, what, rep: _fail(sig, what, dict(rep, verif_seed=ctx.seed, tier=ctx.tier))  # replays are reproducible
+    obs, marked = {}, {}
+
+    def fail(sig, what, rep):
+        """only clauses of the STATEMENT give failing inputs; clauses that encode the model's conventions give a TIE-BROKEN mark,
+        clauses outside statement and model are recorded as observations (route)"""
+        rep = dict(rep, verif_seed=ctx.seed, tier=ctx.tier)  # replays are reproducible
+        r = route(sig, rep)
+        if r == "fail":
+            return _fail(sig, what, rep)
+        head = sig.split("(")[0] if r == "obs" else sig
+        if r == "obs":
+            obs[head] = obs.get(head, 0) + 1
+            obs.setdefault("example:" + head, f"{sig}: {what}"[:240])
+            ctx.cov["observations_outside_the_statement"] = obs
+            return None
+        marked[sig] = marked.get(sig, 0) + 1
+        if marked[sig] <= 3:
+            ctx.mark("TIE-BROKEN", {"correspondence": r, "signature": sig, "what": what[:300], "case": repr({k: v for k, v in rep.items() if k not in ("base", "probe")})[:500]})
+        return None
+
+    ctx.fail = fail
 
     co = call(lambda: extract_call_order(d))
     if isinstance(co, Raised):
